@@ -2,6 +2,7 @@ import Bclv.Model.Tree
 import Bclv.Model.Lexer
 import Bclv.Model.Parser
 import Bclv.Proofs.ParserErase4
+import Bclv.Proofs.LexLayout3
 /-!
 # C20 — layout, comments and redundant parentheses never change meaning (partial)
 
@@ -20,6 +21,20 @@ the pieces that do not need a theory of re-rendering:
   which does contain line and column, is part of what is erased).  So layout can reach the
   compiled program only through the token list itself (kinds and texts), never through
   where the tokens stand;
+* `leading_layout_skipped` (`Proofs/LexLayout1`–`3`, `Proofs/LexFuel`): **layout in front of
+  the unread input is skipped** — dropping one separator (a run of whitespace runes, or a
+  `#` comment up to its line end) from the front of *any* input leaves the lexer's tokens
+  unchanged up to their offsets, hence (`leading_layout_program`) the instruction bytes,
+  the constants and the verdict.  Spelled out: `leading_ascii_space` (each of the six ASCII
+  whitespace bytes), `leading_nel`, `leading_nbsp` (U+0085, U+00A0), `leading_comment` with
+  `dropComment_ascii` (everything before the next CR or LF).  The lexer is a function of
+  its unread bytes at every start state (`lexFrom_indep`), so this is what happens at every
+  token boundary the lexer reaches; what is *not* proved is that the tokens before such a
+  boundary are unaffected by what follows it (that needs a lemma per token kind about its
+  one-rune lookahead) — this half stays with the `layout` stream.  On the way:
+  `lexWhole_budget_free` (the lexer model's result does not depend on its two budgets once
+  they exceed the input length resp. `3·len + 4`), `lexRun_erase` (a run over primitives
+  that report offset 0 produces the same tokens with offsets erased);
 * `positions_do_not_reach_code_partial`: the code bytes the compiler emits for an
   expression, a statement or a program do not depend on any recorded source position —
   two trees that differ only in positions compile to the same instructions;
@@ -39,6 +54,10 @@ theorem layout_only_through_tokens (toks₁ toks₂ : List Token) (lfs₁ lfs₂
     (parseTokens toks₁ lfs₁).consts = (parseTokens toks₂ lfs₂).consts ∧
     (parseTokens toks₁ lfs₁).ok = (parseTokens toks₂ lfs₂).ok :=
   parse_positions_code toks₁ toks₂ lfs₁ lfs₂ h
+
+/-- Leading layout is skipped (lexer side), as a statement about whole inputs. -/
+theorem leading_layout (a : Bytes) : (lexWhole a).map eT = (lexWhole (skipSep a)).map eT :=
+  leading_layout_skipped a
 
 /-- non-vacuity: the same three tokens at different offsets -/
 example : ([⟨.PRINT, [112], [], 0⟩, ⟨.INT, [49], [], 6⟩, ⟨.EOF, [], [], 7⟩] : List Token).map eT
